@@ -25,9 +25,9 @@ VARIABLES script, stage
 Errs == {"", "EOF", "fault"}
 Chunks == UNION {[1..k -> Syms] : k \in 0..(Unit + 1)}
 Init == script = <<>> /\ stage = 0
-\* an error is terminal for the source (io.Reader contract: after (n, err) comes (0, err))
+\* errors need not be terminal: a source may deliver more data after having returned an error
+\* (the loops must still fail at the first error that leaves a unit incomplete)
 Extend == /\ stage = 0 /\ Len(script) < MaxSteps
-          /\ (IF script = <<>> THEN TRUE ELSE script[Len(script)].err = "")
           /\ \E c \in Chunks, e \in Errs : script' = Append(script, [d |-> c, err |-> e])
           /\ stage' = 0
 Stop == stage = 0 /\ stage' = 1 /\ UNCHANGED script
@@ -39,8 +39,11 @@ Spec == Init /\ [][Next]_<<script, stage>>
 RECURSIVE Flat(_, _, _)
 Flat(sc, i, acc) ==      \* <<symbols, failed>>
   IF i > Len(sc) THEN <<acc, TRUE>>                     \* script exhausted: EOF
-  ELSE IF sc[i].err # "" THEN <<acc \o sc[i].d, TRUE>>  \* bytes of the failing step still arrive
-  ELSE Flat(sc, i + 1, acc \o sc[i].d)
+  ELSE LET all == acc \o sc[i].d
+       IN \* an error is a failure of the draw in progress unless the bytes that came with it
+          \* completed a unit (io.ReadFull drops the error then); a zero-byte error always fails
+          IF sc[i].err # "" /\ (Len(sc[i].d) = 0 \/ Len(all) % Unit # 0) THEN <<all, TRUE>>
+          ELSE Flat(sc, i + 1, all)
 RECURSIVE Units(_, _, _)
 Units(sy, i, acc) == IF i + Unit - 1 > Len(sy) THEN acc
                      ELSE Units(sy, i + Unit, Append(acc, ToNumber(SubSeq(sy, i, i + Unit - 1))))
